@@ -51,6 +51,7 @@ def strategy_impl(draw, tier):
         "drop_facedim": draw(st.booleans()),
         "face_order": list(draw(st.permutations(list(range(Kx * Ky))))),
         "reverse_axes": draw(st.booleans()),
+        "flag_style": draw(st.sampled_from(["python", "python", "numpy", "int"])),   # type of the reverse flags / face numbers in the links
         # use the Grid for a scalar (tracer) operation before the vector calls: earlier calls must not matter
         "scalar_first": draw(st.booleans()),
     }
@@ -96,7 +97,7 @@ def check(case, ctx):
     ds = xr.Dataset(coords=coords)
     gc = {"X": {"center": "xc", "left": "xl"}, "Y": {"center": "yc", "left": "yl"}}
     kw = {"boundary": case["boundary"], "fill_value": case["fill"]} if case["bsrc"] == "grid" else {}
-    fc = gen.table_to_xgcm(table_json(table), face_order=case.get("face_order"), reverse_axes=case.get("reverse_axes", False)) if has_links else None
+    fc = gen.table_to_xgcm(table_json(table), face_order=case.get("face_order"), reverse_axes=case.get("reverse_axes", False), flag_style=case.get("flag_style", "python")) if has_links else None
     grid = must_return("Grid construction", Grid, ds, coords=gc, face_connections=fc, autoparse_metadata=False, periodic=False, **kw)
     ckw = {"boundary": case["boundary"], "fill_value": case["fill"]} if case["bsrc"] == "call" else {}
 
